@@ -391,21 +391,64 @@ def build_token_prog() -> dict:
                 and _is_self_attr(st.value.args[0], "name"):
             parts = []
 
+            def mentions_nr(e):
+                return any(isinstance(x, ast.Name) and x.id == "nr" for x in ast.walk(e))
+
+            def how(e, spec=""):
+                txt = (ast.unparse(e) + (":" + spec if spec else ""))
+                return "".join(ch if (32 <= ord(ch) < 127 and ch not in '"\\') else "?" for ch in txt)[:80]
+
+            def field(e, spec="", conv=None):
+                """one value put into the string, with its format spec"""
+                plain = spec in ("", "s") and conv in (None, "s")
+                if isinstance(e, ast.Name) and e.id == "prefix" and plain:
+                    parts.append(".pfx")
+                elif _is_self_attr(e, "_instance_id") and plain:
+                    parts.append(".instanceId")
+                elif isinstance(e, ast.Constant) and isinstance(e.value, str) and plain:
+                    if e.value:
+                        parts.append(".lit " + _lean_str(e.value))
+                elif isinstance(e, ast.Name) and e.id == "nr" and spec in ("", "d") and conv in (None, "s", "r"):
+                    parts.append(".counter")                                   # "{}".format(nr), f"{nr}", "%d" % nr
+                elif (isinstance(e, ast.Call) and isinstance(e.func, ast.Name) and e.func.id in ("str", "repr") and len(e.args) == 1
+                      and isinstance(e.args[0], ast.Name) and e.args[0].id == "nr" and not e.keywords and plain):
+                    parts.append(".counter")
+                elif mentions_nr(e):
+                    parts.append(".counterOther " + _lean_str(how(e, spec)))    # rendered some other way: for the obligation to judge
+                else:
+                    raise TranslatorError(f"line {e.lineno}: unknown part of the token string: {ast.unparse(e)}")
+
             def flat(e):
+                import string as _string
                 if isinstance(e, ast.BinOp) and isinstance(e.op, ast.Add):
                     flat(e.left)
                     flat(e.right)
-                elif isinstance(e, ast.Name) and e.id == "prefix":
-                    parts.append(".pfx")
-                elif _is_self_attr(e, "_instance_id"):
-                    parts.append(".instanceId")
-                elif isinstance(e, ast.Constant) and isinstance(e.value, str):
-                    parts.append(".lit " + _lean_str(e.value))
-                elif (isinstance(e, ast.Call) and isinstance(e.func, ast.Name) and e.func.id == "str" and len(e.args) == 1
-                      and isinstance(e.args[0], ast.Name) and e.args[0].id == "nr" and not e.keywords):
-                    parts.append(".counter")
+                elif isinstance(e, ast.JoinedStr):                              # f"...{x:spec}..."
+                    for v in e.values:
+                        if isinstance(v, ast.Constant):
+                            field(v)
+                        else:
+                            spec = "".join(x.value for x in v.format_spec.values if isinstance(x, ast.Constant)) if v.format_spec else ""
+                            field(v.value, spec, {-1: None, 115: "s", 114: "r", 97: "a"}.get(v.conversion))
+                elif (isinstance(e, ast.Call) and isinstance(e.func, ast.Attribute) and e.func.attr == "format"
+                      and isinstance(e.func.value, ast.Constant) and isinstance(e.func.value.value, str) and not e.keywords):
+                    auto = 0
+                    for (lit, name, spec, conv) in _string.Formatter().parse(e.func.value.value):   # "..{}..{:04x}".format(a, b)
+                        if lit:
+                            field(ast.Constant(value=lit, lineno=e.lineno))
+                        if name is None:
+                            continue
+                        if name == "":
+                            idx, auto = auto, auto + 1
+                        elif name.isdigit():
+                            idx = int(name)
+                        else:
+                            raise TranslatorError(f"line {e.lineno}: format field {name!r} not understood")
+                        if idx >= len(e.args):
+                            raise TranslatorError(f"line {e.lineno}: format field {idx} has no argument")
+                        field(e.args[idx], spec or "", conv)
                 else:
-                    raise TranslatorError(f"line {e.lineno}: unknown part of the token string: {ast.unparse(e)}")
+                    field(e)
             flat(st.value.args[1])
             shape = parts
             prog.append("ret")
@@ -833,6 +876,13 @@ class _World:
                 self.srv.remove_rpc_object(self.owner_proxy["obj"])
                 self._make_object("obj")
                 return "ok"
+            if kind == "setcounter":        # stands for (value - counter) further make_unique_token() calls in that context
+                cx = self.contexts[op[1]]
+                with cx._unique_counters_lock:
+                    if cx._unique_counters.get("$lock_", 0) > op[2]:
+                        return "bad-op"
+                    cx._unique_counters["$lock_"] = op[2]
+                return "ok"
             if kind == "stopctx":           # a client context disconnects
                 self.contexts[op[1]].stop()
                 return "ok"
@@ -920,6 +970,8 @@ def _op_line(op) -> str:
         return f"call {op[1]} {op[2]}"
     if k == "recreate":
         return "recreate"
+    if k == "setcounter":
+        return f"burnto {op[1]} {op[2]}"
     return f"{k} {op[1]}"
 
 
@@ -964,7 +1016,7 @@ def run_history(hist: dict):
             outs += [out, pr, _show_tok(owner_after)]
             ev = {"op": list(op), "out": out, "probe": pr, "owner_before": owner_before, "owner_after": owner_after,
                   "count_before": count_before, "count_after": w.obj.count, "auto": list(w.auto_log[n_auto:])}
-            if op[0] not in ("burn", "recreate", "stopctx", "newctx", "newproxy"):
+            if op[0] not in ("burn", "recreate", "stopctx", "newctx", "newproxy", "setcounter"):
                 t = w.toks(op[1])
                 ev["toks"] = t
                 lines.append(f"tok {op[1]}")
@@ -1066,9 +1118,10 @@ def oracle(hist: dict, trace: list):
                 return F("recreated-object-not-fresh", f"owner {after}, counter {ev['count_after']}")
             period = None
             continue
-        if kind in ("stopctx", "newctx", "newproxy"):
+        if kind in ("stopctx", "newctx", "newproxy", "setcounter"):
             if before != after:
-                which = {"stopctx": "lock-changed-by-disconnect", "newctx": "lock-changed-by-connect", "newproxy": "lock-changed-by-new-proxy"}[kind]
+                which = {"stopctx": "lock-changed-by-disconnect", "newctx": "lock-changed-by-connect", "newproxy": "lock-changed-by-new-proxy",
+                         "setcounter": "lock-changed-by-token-generation"}[kind]
                 return F(which, f"owner {before} -> {after}")
             if ev["count_after"] != ev["count_before"]:
                 return F(f"side-effect-without-call:{okind}", "counter changed")
@@ -1294,6 +1347,12 @@ def corpus_histories() -> list:
     # `with proxy:` while free, while held by oneself, while held by somebody else
     add("with-form", "srv", ["cli"], [1, 0],
         [["call", 0, "w"], ["lock", 0, None], ["call", 0, "w"], ["call", 1, "w"], ["call", 1, "b"], ["unlock", 0, None], ["call", 1, "w"]])
+    # long runs: the holder took token number 1; a proxy of the same context instance makes lock attempt number 1 + D for every
+    # D at which a counter rendering could wrap (the D - 1 attempts in between are stood for by presetting the live counter)
+    for D in (2 ** 8, 2 ** 16, 2 ** 24, 2 ** 32, 2 ** 64, 10 ** 4, 10 ** 6, 10 ** 9):
+        add(f"counter-distance-{D}", "srv", ["cli"], [1, 1, 0],
+            [["lock", 0, None], ["setcounter", 1, D], ["lock", 1, None], ["call", 1, "b"], ["unlock", 1, None], ["islocked", 2], ["call", 0, "n"],
+             ["unlock", 0, None], ["setcounter", 1, 2 * D], ["lock", 1, None], ["lock", 0, None], ["call", 0, "b"]])
     # only the owning context
     add("owning-context-only", "lab", [], [0, 0, 0],
         [["call", 0, "b"], ["lock", 1, None], ["call", 0, "n"], ["call", 1, "n"], ["lock", 2, None], ["force", 0], ["lock", 2, "lab"],
@@ -2166,6 +2225,100 @@ def burst_oracle(spec: dict, obs: dict) -> list:
 
 
 # ---------------------------------------------------------------------------
+# token boundary family: uniqueness over LONG runs (the counter -> string map must be injective)
+# ---------------------------------------------------------------------------
+
+def token_boundaries() -> list:
+    pts = set(range(1, 40))
+    for k in (4, 7, 8, 15, 16, 24, 31, 32, 48, 63, 64, 65):
+        pts.update(range(max(1, 2 ** k - 2), 2 ** k + 3))
+    for k in range(1, 21):
+        pts.update(range(max(1, 10 ** k - 2), 10 ** k + 3))
+    for k in (8, 16, 24, 32):                       # one full period later than the first tokens
+        pts.update(range(2 ** k + 1, 2 ** k + 6))
+        pts.update(range(2 * 2 ** k + 1, 2 * 2 ** k + 4))
+    return sorted(pts)
+
+
+def run_token_boundaries(names=("cli", "srv")):
+    """Tokens through the public path (`make_unique_token()`) with the live per-prefix counter driven to every boundary.
+    Returns (driver lines, impl outputs, [(name, counter value, token)])."""
+    from qmi.core.context import QMI_Context
+    lines, outs, taken = [], [], []
+    for name in names:
+        cx = QMI_Context(name)
+        try:
+            nonce = getattr(cx, "_instance_id", "") or "-"
+            for n in token_boundaries():
+                with cx._unique_counters_lock:
+                    cx._unique_counters["$lock_"] = n - 1
+                tok = cx.make_unique_token()
+                after = cx._unique_counters.get("$lock_")
+                taken.append((name, n, tok, after))
+                lines.append(f"mktoken {name} {nonce} {n}")
+                outs.append(_show_tok(tok))
+        finally:
+            try:
+                import qmi
+                qmi.object_registry.unregister(cx._oid)
+            except Exception:
+                pass
+            for m in list(getattr(cx, "_rpc_object_map", {}).values()):      # the internal $context object of an unstarted context
+                try:
+                    if m is not None:
+                        m.stop()
+                except Exception:
+                    pass
+    return lines, outs, taken
+
+
+def token_boundary_oracle(taken) -> list:
+    fails = []
+    seen = {}
+    for (name, n, tok, after) in taken:
+        if after != n:
+            fails.append(("token-counter-not-advanced", f"context {name}: counter preset to {n - 1}, after make_unique_token() it is {after}"))
+            break
+        key = (name, tuple(tok))
+        if key in seen and seen[key] != n:
+            m = seen[key]
+            d = abs(n - m)
+            cls = f"2^{d.bit_length() - 1}" if d & (d - 1) == 0 else f"{d}"
+            fails.append((f"auto-token-collision:same-context:counter-distance-{cls}",
+                          f"context {name}: token number {n} = token number {m} = {tuple(tok)} (a proxy still holding number {m} is joined by attempt {n})"))
+            break
+        seen[key] = n
+    return fails
+
+
+def run_long_poll(n_polls: int):
+    """A real long poll: A holds the lock, B (same context instance) polls lock() n_polls times; every one must be denied."""
+    hist = {"srv": "srv", "ctxs": ["cli"], "proxies": [1, 1, 0], "ops": []}
+    w = _World(hist)
+    granted_at, toks = None, set()
+    try:
+        w.start()
+        if w.do_op(["lock", 0, None]) != "true":
+            return [("long-poll:setup-failed", "holder could not lock")]
+        held = w.owner()
+        pB = w.proxies[1]
+        for i in range(n_polls):
+            if pB.lock():
+                granted_at = i + 2
+                break
+        fails = []
+        if granted_at is not None:
+            fails.append((f"lock-granted-while-locked:auto-vs-auto:same-context:long-poll",
+                          f"lock attempt number {granted_at} of the context was granted while token number 1 ({held}) holds the lock; "
+                          f"the poller now remembers {pB._lock_token}; its call: {w.do_op(['call', 1, 'b'])}"))
+        elif w.owner() != held:
+            fails.append(("long-poll:owner-changed", f"{held} -> {w.owner()}"))
+        return fails
+    finally:
+        w.stop()
+
+
+# ---------------------------------------------------------------------------
 # the check
 # ---------------------------------------------------------------------------
 
@@ -2206,17 +2359,48 @@ class C04(Prop):
     # -- translator -----------------------------------------------------------------------------
     def translate(self, ctx: Ctx):
         import random
-        t = build_tables(random.Random(f"C04-translate:{ctx.seed}"))
-        t["queue"] = build_queue_facts()
-        core.write_if_changed(GEN_FILE, render_gen(t))
-        self._tables = t
-        tp = build_token_prog()
-        tp["id_sources"] = build_instance_id_sources()
-        core.write_if_changed(GEN_TOKEN_FILE, render_token_gen(tp))
-        self._token_prog = tp
-        return [GEN_FILE, GEN_TOKEN_FILE]
+        # the two generated files are independent: a source shape one translator does not understand must not keep the other
+        # file (nor the harness, which needs only the driver) from being up to date; all complaints are raised together
+        errors, written = [], []
+        try:
+            t = build_tables(random.Random(f"C04-translate:{ctx.seed}"))
+            try:
+                t["queue"] = build_queue_facts()
+            except TranslatorError as e:
+                errors.append(f"queue facts: {e}")
+                t["queue"] = {"bound": None, "consts": {}}
+            core.write_if_changed(GEN_FILE, render_gen(t))
+            self._tables = t
+            written.append(GEN_FILE)
+        except TranslatorError as e:
+            errors.append(f"lock table: {e}")
+        try:
+            tp = build_token_prog()
+            try:
+                tp["id_sources"] = build_instance_id_sources()
+            except TranslatorError as e:
+                errors.append(f"instance id sources: {e}")
+                tp["id_sources"] = [".clientState"]
+            core.write_if_changed(GEN_TOKEN_FILE, render_token_gen(tp))
+            self._token_prog = tp
+            written.append(GEN_TOKEN_FILE)
+        except TranslatorError as e:
+            errors.append(f"make_unique_token: {e}")
+        if errors:
+            raise TranslatorError("; ".join(errors))
+        return written
 
     # -- helpers --------------------------------------------------------------------------------
+    def _model(self, lines, res: Result):
+        """Outputs of the model driver; when the driver cannot be run (it does not build on this tree) the implementation's own
+        outputs are not diffed (`None` entries never equal a real output, so the link is reported once) - the oracles still run."""
+        try:
+            return LeanDriver(self.driver).run(lines)
+        except Exception as e:  # noqa
+            if not any(b.name == "C04.driver-unavailable" for b in res.broken):
+                res.broken.append(Broken("correspondence", "C04.driver-unavailable", f"model driver could not be run: {type(e).__name__}: {str(e)[:200]}"))
+            return None
+
     def _run_batch(self, ctx: Ctx, hists: list, res: Result, stream: str, failures: dict):
         """Run histories on the real code, diff with the model, evaluate the oracle."""
         all_lines, all_outs, spans = [], [], []
@@ -2249,8 +2433,8 @@ class C04(Prop):
                 res.sample({"history": {k: v for k, v in h.items() if k != "cell"}, "impl": _jsonable_trace(trace)[:12]}, 3)
             for (sig, detail, idx) in oracle(h, trace):
                 failures.setdefault(sig, []).append((h, detail))
-        model = LeanDriver(self.driver).run(all_lines)
-        k = diff_streams(all_lines, all_outs, model)
+        model = self._model(all_lines, res)
+        k = diff_streams(all_lines, all_outs, model) if model is not None else None
         if k is not None:
             for (start, ln, h) in spans:
                 if start <= k < start + ln:
@@ -2330,8 +2514,8 @@ class C04(Prop):
             spans.append((len(all_lines), len(l), spec))
             all_lines += l
             all_outs += o
-        model = LeanDriver(self.driver).run(all_lines)
-        kx = diff_streams(all_lines, all_outs, model)
+        model = self._model(all_lines, res)
+        kx = diff_streams(all_lines, all_outs, model) if model is not None else None
         if kx is not None:
             for (start, ln, spec) in spans:
                 if start <= kx < start + ln:
@@ -2362,8 +2546,8 @@ class C04(Prop):
             spans.append((len(all_lines), len(l), spec))
             all_lines += l
             all_outs += o
-        model = LeanDriver(self.driver).run(all_lines)
-        kx = diff_streams(all_lines, all_outs, model)
+        model = self._model(all_lines, res)
+        kx = diff_streams(all_lines, all_outs, model) if model is not None else None
         if kx is not None:
             for (start, ln, spec) in spans:
                 if start <= kx < start + ln:
@@ -2405,8 +2589,8 @@ class C04(Prop):
                     spans.append((len(all_lines), len(lines), spec))
                     all_lines += lines
                     all_outs += outs
-        model = LeanDriver(self.driver).run(all_lines)
-        kx = diff_streams(all_lines, all_outs, model)
+        model = self._model(all_lines, res)
+        kx = diff_streams(all_lines, all_outs, model) if model is not None else None
         if kx is not None:
             for (start, ln, spec) in spans:
                 if start <= kx < start + ln:
@@ -2416,6 +2600,26 @@ class C04(Prop):
         for sig, lst in ffail.items():
             spec, detail = lst[0]
             res.failures.append(Failure(sig, f"{sig}: {spec}: {detail}", {**spec, "signature": sig}))
+
+    # -- token boundary family -------------------------------------------------------------------------
+    def _token_family(self, ctx: Ctx, res: Result):
+        lines, outs, taken = run_token_boundaries()
+        res.note_case(("token-boundaries", len(taken)), nontrivial=True)
+        res.count("token_boundary_values", len(taken))
+        res.traces_validated += 1
+        for (sig, detail) in token_boundary_oracle(taken):
+            res.failures.append(Failure(sig, f"{sig}: {detail}", {"kind": "tokens", "signature": sig}))
+        model = self._model(["init srv 0"] + lines, res)
+        kx = diff_streams(lines, outs, model[1:]) if model is not None else None
+        if kx is not None:
+            res.broken.append(Broken("correspondence", "Lock.mkToken vs QMI_Context.make_unique_token (counter boundaries)",
+                                     f"{lines[kx]!r}: impl={outs[kx]!r} model={model[kx]!r}", case={"kind": "tokens"}))
+        if not ctx.quick:
+            with _Instrumented():
+                n = 70000
+                res.count("long_poll_lock_calls", n)
+                for (sig, detail) in run_long_poll(n):
+                    res.failures.append(Failure(sig, f"{sig}: {detail}", {"kind": "longpoll", "n": n, "signature": sig}))
 
     # -- fresh-process family ------------------------------------------------------------------------
     def _fresh_process_family(self, ctx: Ctx, res: Result):
@@ -2450,12 +2654,14 @@ class C04(Prop):
         self._conc_family(ctx, res, ctx.quick)
         self._retry_family(ctx, res, ctx.quick)
         self._fresh_process_family(ctx, res)
+        self._token_family(ctx, res)
         self._fault_family(ctx, res, ctx.quick)
         # malformed driver input
-        drv = LeanDriver(self.driver)
         lines = ["init srv a0", "ctx cli b1", "proxy 1"] + [l for l, _ in _MALFORMED]
-        outs = drv.run(lines)
+        outs = self._model(lines, res) or [None] * len(lines)
         for (l, exp), got in zip(_MALFORMED, outs[3:]):
+            if got is None:
+                break
             res.count("malformed_lines")
             if got != exp:
                 res.broken.append(Broken("correspondence", "driver malformed-line handling", f"{l!r}: {got!r} != {exp!r}"))
@@ -2484,9 +2690,15 @@ class C04(Prop):
                 for (sig, detail) in retry_check(spec, out, events, val)[0]:
                     res.failures.append(Failure(sig, f"{sig}: {spec}: {detail}", {"kind": "retry", "spec": spec, "signature": sig}))
         if not any(f.signature.startswith("concurrent:") for f in res.failures):
+            # every family again with the oracles alone (the model driver may not even build on this tree)
             sub = Result()
-            self._conc_family(ctx, sub, False)
-            self._retry_family(ctx, sub, False)
+            for fam in (lambda: self._token_family(ctx, sub), lambda: self._fresh_process_family(ctx, sub),
+                        lambda: self._fault_family(ctx, sub, ctx.quick), lambda: self._conc_family(ctx, sub, False),
+                        lambda: self._retry_family(ctx, sub, False)):
+                try:
+                    fam()
+                except Exception as e:  # noqa
+                    ctx.log(f"search: a family crashed: {type(e).__name__}: {e}")
             sub.broken = []
             res.merge(sub)
         with _Instrumented():
@@ -2497,7 +2709,7 @@ class C04(Prop):
                     for (sig, detail, _) in oracle(b.case, tr):
                         failures.setdefault(sig, []).append((b.case, detail))
             # systematic: every cell, then every op string up to length 3 over a 3-proxy alphabet in two populations
-            for h in sweep_histories():
+            for h in corpus_histories() + sweep_histories():
                 _, _, tr = run_history(h)
                 res.note_case(("sweep", h["cell"]))
                 for (sig, detail, _) in oracle(h, tr):
@@ -2531,6 +2743,13 @@ class C04(Prop):
                 return None
             sig, detail = next(((s_, d) for (s_, d) in fs if s_ == rp.get("signature")), fs[0])
             return Failure(sig, f"{sig}: {detail}", rp)
+        if rp.get("kind") == "tokens":
+            fs = token_boundary_oracle(run_token_boundaries()[2])
+            return Failure(fs[0][0], f"{fs[0][0]}: {fs[0][1]}", rp) if fs else None
+        if rp.get("kind") == "longpoll":
+            with _Instrumented():
+                fs = run_long_poll(rp.get("n", 70000))
+            return Failure(fs[0][0], f"{fs[0][0]}: {fs[0][1]}", rp) if fs else None
         if rp.get("kind") == "procs":
             fs = fresh_process_oracle(run_fresh_processes(rp["seed_value"], rp["names"]))
             return Failure(fs[0][0], f"{fs[0][0]}: {fs[0][1]}", rp) if fs else None
